@@ -22,7 +22,9 @@ Driver ops for the thread model (C12) and the instance model (C11).
 `inst.run [cfg=<refs>] <event>…`   the toy instance of `Model/Instance.lean`; one answer entry per conversion
 `inst.sys <sevent>…`               a store of toy instances
 
-  event     `R` (reset) or a document: ops joined by `,`: `d:<k>:<v>` define · `u:<k>` use · `r` raise; the empty
+  event     `R` (`reset()`: clears the references *and* the nesting level, as the code does since f86514b), `Rold`
+            (`inst.run` only: the `reset()` of before that commit, which left the nesting level — defect F-C11-1)
+            or a document: ops joined by `,`: `d:<k>:<v>` define · `u:<k>` use · `r` raise; the empty
             document is `-`
   refs      `<k>:<v>` joined by `,`
   sevent    `C` or `C<refs>` (construct an instance with these predefined references) or `<i>@<event>`
@@ -202,11 +204,20 @@ def showConv (r : Inst Refs Refs Nat × Result (List Item)) : String :=
     | .ok items => "ok" ++ ",".intercalate (items.map showItem))
   ++ "@" ++ showRefs r.1.fields ++ "@" ++ toString r.1.leak
 
+/-- an event of `inst.run`: an event of the model, or the pre-repair `reset()` -/
+inductive DEv where
+  | ev (e : Ev Doc)
+  | resetOld
+
+def parseDEv (s : String) : Option DEv :=
+  if s == "Rold" then some .resetOld else (parseEv s).map .ev
+
 /-- the conversions of a history, with the instance after each -/
-def convs (x : Inst Refs Refs Nat) : List (Ev Doc) → List (Inst Refs Refs Nat × Result (List Item))
+def convs (x : Inst Refs Refs Nat) : List DEv → List (Inst Refs Refs Nat × Result (List Item))
   | [] => []
-  | .convert d :: h => conv machine x d :: convs (conv machine x d).1 h
-  | .reset :: h => convs (reset machine x) h
+  | .ev (.convert d) :: h => conv machine x d :: convs (conv machine x d).1 h
+  | .ev .reset :: h => convs (reset machine x) h
+  | .resetOld :: h => convs (resetOld machine x) h
 
 inductive SReq where
   | create (c : Refs)
@@ -239,7 +250,7 @@ def instHandler : Handler := fun op args =>
     let (cfg, evs) := match args with
       | a :: rest => if a.startsWith "cfg=" then (parseRefs (a.drop 4).toString, rest) else (some [], args)
       | [] => (some [], [])
-    match cfg, evs.mapM parseEv with
+    match cfg, evs.mapM parseDEv with
     | some c, some h => some ("|".intercalate ((convs (fresh machine c) h).map showConv))
     | _, _ => some "bad-args"
   | "inst.sys" =>
